@@ -75,7 +75,7 @@ def idempotence(rng, res, tier, shard, nshards):
     nwmax = 3 if tier == 'quick' else 6
     fmts = [(s, nw, nf) for s in (True, False) for nw in range(1, nwmax + 1) for nf in range(-8, nw + 9)]
     work = [(f, None) for i, f in enumerate(fmts) if i % nshards == shard]
-    for _ in range((400 if tier == 'quick' else 8000) // nshards):
+    for _ in range((1200 if tier == 'quick' else 8000) // nshards):
         work.append((S.random_format(rng), 6))
     for (s, nw, nf), k in work:
         lo, hi = S.fmt_bounds(s, nw)
@@ -111,7 +111,7 @@ def shard(shard, nshards, rng, tier, extra):
             cases.append({'s': s, 'nw': nw, 'nf': nf, 'r': r, 'o': o, 'carrier': 'arr:float64', 'route': S.ROUTES[(idx + mi) % 4], 'vals': sweep, 'setmode': 'slice'})
     check_relations(cases, res, 'A:exhaustive-quarter-LSB')
     cases = []
-    for _ in range((5000 if tier == 'quick' else 150000) // nshards):
+    for _ in range((15000 if tier == 'quick' else 150000) // nshards):
         s, nw, nf = S.random_format(rng)
         vals = [S.as_number(v) for v in S.boundary_values(rng, s, nw, nf, rng.choice([1, 1, 2, 5]))]
         cases.append({'s': s, 'nw': nw, 'nf': nf, 'r': rng.choice(RMODES), 'o': rng.choice(OMODES), 'carrier': rng.choice(S.carriers_for(vals, rng)),
@@ -120,7 +120,7 @@ def shard(shard, nshards, rng, tier, extra):
     # ---- (T) n_frac < 0: non-zero floats whose scaled value underflows to zero, in arrays together with exact zeros (of either sign) and
     # representable values, in any order: a repair applied to the vanishing element must not touch its neighbours
     cases = []
-    for _ in range((600 if tier == 'quick' else 15000) // nshards):
+    for _ in range((1800 if tier == 'quick' else 15000) // nshards):
         s, nw, nf = S.random_format(rng); nf = -rng.randint(1, 8)
         vals = [rng.choice([1, -1]) * rng.choice([5e-324, 2.0 ** -1074, 2.0 ** rng.randint(-1074, -1060), 3 * 2.0 ** -1074]) for _k in range(rng.choice([1, 1, 2]))]
         vals += [rng.choice([0.0, -0.0, 0.0, float(rng.randint(0, 3) * 2 ** -nf), float(2 ** (-nf - 1))]) for _k in range(rng.choice([1, 2, 3]))]
